@@ -35,12 +35,15 @@ pub(crate) fn any_hsla_valid() -> Hsla {
 /// ASSUMED contract of `deg_mod`, used at every call site below
 /// (`#[kani::stub]`).  CBMC 6.11 does not model `f64 % f64` (measured: it
 /// "refutes" `-90.0 % 360.0 == -90.0` and `v % 360 == v` for 0 <= v < 360),
-/// so nothing that executes `value % turn` can be decided by Kani.  The
-/// body of the real `deg_mod` is instead proved against THIS contract, with
-/// `%` replaced by the IEEE-754 fmod axioms, on text extracted from /repo on
-/// every run (unit X-deg-mod, see tools/extract.py).
+/// so nothing that executes `value % turn` can be decided by Kani, and Verus
+/// has no float arithmetic.  The body of the real `deg_mod` is therefore NOT
+/// verified: this contract is an unchecked assumption, listed as such in the
+/// evidence of every property that uses it.  It is exact (not an
+/// over-approximation) on [-360, 720]; harnesses whose law needs the exact
+/// value keep their angles inside that interval.
 ///   finite v in [0,360)      -> v
 ///   finite v in [360,720)    -> v - 360   (exact)
+///   v == 720                 -> 0
 ///   finite v in [-360,0)     -> v + 360, folded to 0 when that rounds to 360
 ///   any other finite v       -> some r with 0 <= r < 360
 ///   NaN / infinite           -> NaN
@@ -51,6 +54,9 @@ pub(crate) fn deg_mod_by_contract(v: f64) -> f64 {
         v
     } else if 360.0 <= v && v < 720.0 {
         v - 360.0
+    } else if v == 720.0 {
+        // `h + 360` with h just below 360 rounds to exactly two turns
+        0.0
     } else if -360.0 <= v && v < 0.0 {
         let r = v + 360.0;
         if r >= 360.0 { 0.0 } else { r }
